@@ -1,5 +1,5 @@
-// C12 for CorrelationTrendIndicator on a FULL window (k = N): invariant under x -> a x + b, a > 0, and negated by negation.
-// (On a partially filled window the code multiplies by N instead of k and is not offset-invariant: open finding C12/cti.)
+// C12 for CorrelationTrendIndicator with k = the number of values in the window: invariant under x -> a x + b, a > 0, and negated by negation.
+// (Before the repair b79cbfd the code multiplied by N instead of k on a partially filled window and was not offset-invariant there.)
 use crate::props::c00_affine::*;
 use crate::props::c07_cti_bound::*;
 
